@@ -2239,3 +2239,97 @@ func runC12ManyInFlight(c *CaseCtx, r *rand.Rand) (res CaseResult) {
 	res.Sample = det
 	return res
 }
+
+// runC12SharedFailingOptions: ONE option list with several malformed options
+// (converters that are not functions) is shared by concurrent Calls, Converts
+// and Redefines. Every one of them is refused with exactly the error text the
+// same operation yields sequentially with a list of its own -- during the
+// concurrent phase and afterwards (nothing accumulates in the shared options).
+func runC12SharedFailingOptions(c *CaseCtx, r *rand.Rand) (res CaseResult) {
+	res.NonTrivial = true
+	res.Key = "shared-failing-options"
+	res.obs("family.shared-failing-options", 1)
+	det := map[string]interface{}{"case": res.Key}
+	old := runtime.GOMAXPROCS(16)
+	defer runtime.GOMAXPROCS(old)
+	mkOpts := func() []am.Arg {
+		return []am.Arg{am.Typed(T0{ID: 1}), am.Converter(42), am.Named("x", T1{ID: 2}), am.Converter("not a function", 3.5), am.Converter(struct{}{})}
+	}
+	f, err := am.NewFunc(func(a T0) T1 { return T1{ID: a.ID} })
+	if err != nil {
+		res.Skip = "newfunc"
+		return res
+	}
+	text := func(op int, opts []am.Arg) string {
+		switch op {
+		case 0:
+			rr := f.Call(opts...)
+			return errStr(rr.Err())
+		case 1:
+			_, err := am.Convert(types[1], opts...)
+			return errStr(err)
+		default:
+			_, err := f.Redefine(opts...)
+			return errStr(err)
+		}
+	}
+	var want [3]string
+	for op := range want {
+		want[op] = text(op, mkOpts())
+		if want[op] == "" {
+			res.violate("C06", "malformed-accepted/converter-42", "an operation with non-function converters returned no error", det)
+			return res
+		}
+	}
+	shared := mkOpts()
+	G, per := 8, tierReps(c.Tier, 40, 100)
+	var wg sync.WaitGroup
+	var mu sync.Mutex
+	bad, first := 0, ""
+	start := make(chan struct{})
+	for g := 0; g < G; g++ {
+		wg.Add(1)
+		go func(g int) {
+			defer wg.Done()
+			defer func() {
+				if p := recover(); p != nil {
+					mu.Lock()
+					bad++
+					if first == "" {
+						first = fmt.Sprintf("panic: %v", p)
+					}
+					mu.Unlock()
+				}
+			}()
+			<-start
+			for k := 0; k < per; k++ {
+				op := (g + k) % 3
+				if got := text(op, shared); got != want[op] {
+					mu.Lock()
+					bad++
+					if first == "" {
+						first = fmt.Sprintf("operation %d: %q, sequentially %q", op, firstLine(got), firstLine(want[op]))
+					}
+					mu.Unlock()
+				}
+			}
+		}(g)
+	}
+	close(start)
+	wg.Wait()
+	res.Evals += G * per
+	res.obs("concurrent_operations", int64(G*per))
+	for op := range want {
+		if got := text(op, shared); got != want[op] {
+			bad++
+			if first == "" {
+				first = fmt.Sprintf("after the concurrent phase, operation %d: %q, with fresh options %q", op, firstLine(got), firstLine(want[op]))
+			}
+		}
+	}
+	if bad > 0 {
+		res.violate("C12", "concurrent-outcome-differs", fmt.Sprintf("%d operations refused for the shared malformed options returned another error than the same operation does sequentially; first: %s", bad, first), det)
+	}
+	res.Sample = det
+	return res
+}
